@@ -64,3 +64,24 @@ Example c07_example :
     = (true, 2%nat, [4; 4], 2%nat) /\
   snd (fst (S_vi_solve c07_M 1 (1#10) Span false 1 10 (vi_init [0;0]))) = false.
 Proof. vm_compute. repeat split; reflexivity. Qed.
+
+(* ---------- ties by translation (re-stated here so that THIS property's obligations break when the source they speak about
+   changes shape): gen/GenKernel.v and gen/GenLoops.v are regenerated from $VERIF_REPO/src on every run *)
+From MdpaxV Require Import Model.Skeleton Model.Kernel Model.KernelOps Proofs.SkeletonP Proofs.GenKernelP.
+From MdpaxGen Require Import GenLoops GenKernel.
+
+(* the one-state update GENERATED from ValueIteration._calculate_updated_value (expectation over the event space with the
+   problem's own probabilities, maximum over the action space) is the Bellman optimality backup the theorems above use *)
+Theorem c07_generated_update_is_bellman_backup : forall (M : mdp) st g V, (0 < nA M)%nat ->
+  gen_calculate_updated_value (prims_of M) st (seq 0 (nA M)) (seq 0 (nE M)) g V = backup M g V st.
+Proof. exact gen_updated_value_is_backup. Qed.
+Print Assumptions c07_generated_update_is_bellman_backup.
+
+(* each solve() whose result this property speaks about = the interpretation of the skeleton translated from ITS source
+   (one step per pass, the stopping test, the periodic and the final save, the policy extraction) *)
+Theorem c07_pvi_solve_follows_source : forall g eps SW POL clearflag ckpt freq k st,
+  pvi_solve g eps SW POL clearflag ckpt freq k st =
+  run_skel pvist pvi_incr (pvi_sweep_step g eps SW) p_iter (pvi_finish POL false false)
+           (fun s => if clearflag then pvi_clear s else s) ckpt freq pvi_skel k st.
+Proof. exact pvi_solve_is_skeleton. Qed.
+Print Assumptions c07_pvi_solve_follows_source.
